@@ -45,9 +45,24 @@ const (
 
 func submgrKind() kindDef {
 	return kindDef{
-		name:     "subscriber-manager",
-		cfgs:     []string{"radius"},
-		prefixes: func(string) []string { return []string{"CREATED", "AUTH", "ADDR", "ACTIVE"} },
+		name: "subscriber-manager",
+		// sessions are dual-stack (IPv4 + IPv6 from the allocator). .../fault=release-vN: the allocator fails the
+		// release of the victim's IPvN address (error returned, nothing released): every OTHER resource of the
+		// session must still be released and the session must still leave the tables
+		cfgs: []string{"radius", "radius/fault=release-v4", "radius/fault=release-v6"},
+		prefixes: func(cfg string) []string {
+			if strings.Contains(cfg, "/fault=") {
+				return []string{"ACTIVE"}
+			}
+			// ACTIVE-LATE: active, then silent for longer than the idle timeout, then active again BEFORE the next cleanup tick
+			return []string{"CREATED", "AUTH", "ADDR", "ACTIVE", "ACTIVE-LATE"}
+		},
+		morePrefixes: func(cfg string) []string {
+			if strings.Contains(cfg, "/fault=") {
+				return []string{"ADDR"}
+			}
+			return nil
+		},
 		paths: func(_, prefix string) []string {
 			p := []string{"ADMIN", "IDLE", "AUTHFAIL", "DISCONNECT", "STOP"}
 			if prefix != "CREATED" {
@@ -59,12 +74,16 @@ func submgrKind() kindDef {
 	}
 }
 
-// smPool: AddressAllocator over 10.0.2.2-.5 that records every release of an address nobody holds.
+// smPool: dual-stack AddressAllocator (10.0.2.2-.5, 2001:db8:16::2-::5) that records every release of an
+// address nobody holds and can fail the release of one address family for one session (fault injection).
 type smPool struct {
-	mu     sync.Mutex
-	free   []string
-	owner  map[string]string // ip -> session id
-	double []string
+	mu      sync.Mutex
+	free    []string
+	owner   map[string]string // ip -> session id
+	double  []string
+	failFam string   // "v4" / "v6": releases of that family fail ...
+	failFor string   // ... for addresses owned by this session id
+	faulted []string // addresses whose release was failed by injection (they stay owned)
 }
 
 func newSMPool() *smPool {
@@ -72,44 +91,74 @@ func newSMPool() *smPool {
 	for i := 0; i < smTotal; i++ {
 		p.free = append(p.free, fmt.Sprintf("10.0.2.%d", 2+i))
 	}
+	for i := 0; i < smTotal; i++ {
+		p.free = append(p.free, fmt.Sprintf("2001:db8:16::%d", 2+i))
+	}
 	return p
 }
 
-func (p *smPool) AllocateIPv4(_ context.Context, s *subscriber.Session, _ string) (net.IP, net.IPMask, net.IP, error) {
+func fam(ip string) string {
+	if strings.Contains(ip, ":") {
+		return "v6"
+	}
+	return "v4"
+}
+
+func (p *smPool) alloc(id, family string) string {
 	p.mu.Lock()
 	defer p.mu.Unlock()
 	for ip, o := range p.owner {
-		if o == s.ID {
-			return net.ParseIP(ip).To4(), net.CIDRMask(24, 32), net.IPv4(10, 0, 2, 1).To4(), nil
+		if o == id && fam(ip) == family {
+			return ip
 		}
 	}
-	if len(p.free) == 0 {
-		return nil, nil, nil, fmt.Errorf("pool exhausted")
+	for i, ip := range p.free {
+		if fam(ip) == family {
+			p.free = append(p.free[:i:i], p.free[i+1:]...)
+			p.owner[ip] = id
+			return ip
+		}
 	}
-	ip := p.free[0]
-	p.free = p.free[1:]
-	p.owner[ip] = s.ID
-	return net.ParseIP(ip).To4(), net.CIDRMask(24, 32), net.IPv4(10, 0, 2, 1).To4(), nil
+	return ""
 }
 
-func (p *smPool) AllocateIPv6(context.Context, *subscriber.Session, string) (net.IP, *net.IPNet, error) {
-	return nil, nil, fmt.Errorf("no IPv6 pool")
-}
-
-func (p *smPool) ReleaseIPv4(_ context.Context, ip net.IP) error {
+func (p *smPool) release(ip net.IP) error {
 	p.mu.Lock()
 	defer p.mu.Unlock()
 	k := ip.String()
-	if _, ok := p.owner[k]; !ok {
+	o, ok := p.owner[k]
+	if !ok {
 		p.double = append(p.double, k)
 		return fmt.Errorf("%s is not allocated", k)
+	}
+	if p.failFam == fam(k) && o == p.failFor {
+		p.faulted = append(p.faulted, k)
+		return fmt.Errorf("allocation store unreachable (injected)")
 	}
 	delete(p.owner, k)
 	p.free = append(p.free, k)
 	return nil
 }
 
-func (p *smPool) ReleaseIPv6(context.Context, net.IP) error { return nil }
+func (p *smPool) AllocateIPv4(_ context.Context, s *subscriber.Session, _ string) (net.IP, net.IPMask, net.IP, error) {
+	ip := p.alloc(s.ID, "v4")
+	if ip == "" {
+		return nil, nil, nil, fmt.Errorf("pool exhausted")
+	}
+	return net.ParseIP(ip).To4(), net.CIDRMask(24, 32), net.IPv4(10, 0, 2, 1).To4(), nil
+}
+
+func (p *smPool) AllocateIPv6(_ context.Context, s *subscriber.Session, _ string) (net.IP, *net.IPNet, error) {
+	ip := p.alloc(s.ID, "v6")
+	if ip == "" {
+		return nil, nil, fmt.Errorf("IPv6 pool exhausted")
+	}
+	_, pfx, _ := net.ParseCIDR("2001:db8:16::/64")
+	return net.ParseIP(ip), pfx, nil
+}
+
+func (p *smPool) ReleaseIPv4(_ context.Context, ip net.IP) error { return p.release(ip) }
+func (p *smPool) ReleaseIPv6(_ context.Context, ip net.IP) error { return p.release(ip) }
 
 func (p *smPool) state() (free []string, owner map[string]string, double []string) {
 	p.mu.Lock()
@@ -119,6 +168,13 @@ func (p *smPool) state() (free []string, owner map[string]string, double []strin
 		owner[k] = v
 	}
 	return append([]string(nil), p.free...), owner, append([]string(nil), p.double...)
+}
+
+// exempt: the release of ip was failed by injection, so it legitimately stays allocated.
+func (p *smPool) exempt(ip string) bool {
+	p.mu.Lock()
+	defer p.mu.Unlock()
+	return contains(p.faulted, ip)
 }
 
 // smAuth: Authenticator backed by the real RADIUS client.
@@ -140,10 +196,11 @@ func (a *smAuth) Authenticate(ctx context.Context, req *subscriber.SessionReques
 }
 
 type smSub struct {
-	name string
-	mac  net.HardwareAddr
-	id   string
-	addr net.IP
+	name  string
+	mac   net.HardwareAddr
+	id    string
+	addr  net.IP
+	addr6 net.IP
 }
 
 type smWorld struct {
@@ -258,10 +315,13 @@ func (w *smWorld) establish(c *smSub, prefix string) {
 	if prefix == "AUTH" {
 		return
 	}
-	if err := w.mgr.AssignAddress(ctx, c.id, "pool4", ""); err != nil {
+	if err := w.mgr.AssignAddress(ctx, c.id, "pool4", "pool6"); err != nil {
 		panic("harness: " + err.Error())
 	}
 	c.addr = append(net.IP{}, s.IPv4.To4()...)
+	if s.IPv6 != nil {
+		c.addr6 = append(net.IP{}, s.IPv6...)
+	}
 	if prefix == "ADDR" {
 		return
 	}
@@ -277,10 +337,28 @@ func runSubMgr(e *kenv, k kase) (res result) {
 	w.establish(w.b, "ACTIVE")
 	w.base = e.dump()
 	w.a = &smSub{name: "victim", mac: net.HardwareAddr{2, 0, 0, 0, 0, 0x0a}}
-	w.establish(w.a, k.Prefix)
+	w.establish(w.a, strings.TrimSuffix(k.Prefix, "-LATE"))
+	if strings.HasSuffix(k.Prefix, "-LATE") {
+		// silent for longer than the idle timeout, no cleanup tick in that time; active again; then the tick
+		for t := time.Duration(0); t < smIdle+smCleanup/2; t += smCleanup / 2 {
+			time.Sleep(smCleanup / 2)
+			synctest.Wait()
+			w.mgr.UpdateActivity(w.b.id, 1, 1, 1, 1)
+		}
+		w.mgr.UpdateActivity(w.a.id, 1, 1, 1, 1)
+		w.mgr.VerifC16Cleanup()
+	}
+	if _, f, ok := strings.Cut(k.Cfg, "/fault=release-"); ok {
+		w.pool.mu.Lock()
+		w.pool.failFam, w.pool.failFor = f, w.a.id
+		w.pool.mu.Unlock()
+	}
 	h := []string{"session-entry"}
 	if w.a.addr != nil {
 		h = append(h, "address")
+	}
+	if w.a.addr6 != nil {
+		h = append(h, "address6")
 	}
 	if _, ok := w.active[w.a.id]; ok {
 		h = append(h, "nat", "qos", "acct-start")
@@ -366,15 +444,17 @@ func (w *smWorld) checkReleased(site string) {
 		w.add("double-release", site, "address %s was released although nobody held it", d)
 	}
 	for ip, o := range owner {
-		if o == w.a.id {
+		if o == w.a.id && !w.pool.exempt(ip) {
 			w.add("address-not-released", site, "the pool still has %s allocated to the victim's session", ip)
 		}
 	}
-	if w.a.addr != nil && !contains(free, w.a.addr.String()) && owner[w.a.addr.String()] != w.a.id {
-		w.add("address-not-released", site, "%s is neither free nor the victim's (owner %q)", w.a.addr, owner[w.a.addr.String()])
+	for _, a := range []net.IP{w.a.addr, w.a.addr6} {
+		if a != nil && !contains(free, a.String()) && owner[a.String()] != w.a.id {
+			w.add("address-not-released", site, "%s is neither free nor the victim's (owner %q)", a, owner[a.String()])
+		}
 	}
-	if len(free)+len(owner) != smTotal {
-		w.add("pool-conservation", site, "pool accounts for %d addresses, has %d (free=%v owner=%v)", len(free)+len(owner), smTotal, free, owner)
+	if len(free)+len(owner) != 2*smTotal {
+		w.add("pool-conservation", site, "pool accounts for %d addresses, has %d (free=%v owner=%v)", len(free)+len(owner), 2*smTotal, free, owner)
 	}
 	if _, ok := w.mgr.GetSession(w.a.id); ok {
 		w.add("session-still-present", site, "the manager still has the victim's session")
@@ -382,12 +462,15 @@ func (w *smWorld) checkReleased(site string) {
 	if _, ok := w.mgr.GetSessionByMAC(w.a.mac); ok {
 		w.add("session-still-present", site, "the manager's MAC index still has the victim")
 	}
-	if w.a.addr != nil {
-		if s, ok := w.mgr.GetSessionByIP(w.a.addr); ok && (s == nil || s.ID == w.a.id) {
-			w.add("session-still-present", site, "the manager's IP index still has the victim's address %s", w.a.addr)
+	for _, a := range []net.IP{w.a.addr, w.a.addr6} {
+		if a == nil {
+			continue
+		}
+		if s, ok := w.mgr.GetSessionByIP(a); ok && (s == nil || s.ID == w.a.id) {
+			w.add("session-still-present", site, "the manager's IP index still has the victim's address %s", a)
 		}
 	}
-	if ns, nm, ni := w.mgr.VerifC16Indexes(); ns != 1 || nm != 1 || ni != 1 {
+	if ns, nm, ni := w.mgr.VerifC16Indexes(); ns != 1 || nm != 1 || ni != 2 {
 		w.add("session-still-present", site, "manager tables hold %d sessions / %d MACs / %d addresses, only the bystander should be left", ns, nm, ni)
 	}
 	if n := w.terms[w.a.id]; n > 1 {
@@ -429,7 +512,7 @@ func (w *smWorld) checkReleased(site string) {
 	if _, bs := w.rs.count(w.b.id); bs != 0 {
 		w.add("bystander-damaged", site, "the bystander got an Accounting-Stop: %s", w.rs.render())
 	}
-	if s, ok := w.mgr.GetSession(w.b.id); !ok || s.State != subscriber.StateActive || owner[w.b.addr.String()] != w.b.id || w.natM.GetAllocation(w.b.addr) == nil {
+	if s, ok := w.mgr.GetSession(w.b.id); !ok || s.State != subscriber.StateActive || owner[w.b.addr.String()] != w.b.id || owner[w.b.addr6.String()] != w.b.id || w.natM.GetAllocation(w.b.addr) == nil {
 		w.add("bystander-damaged", site, "the bystander lost its session, address or NAT allocation")
 	}
 }
@@ -478,16 +561,38 @@ func (w *smWorld) probe(site string) {
 			break
 		}
 		got[c.addr.String()]++
+		if c.addr6 != nil {
+			got[c.addr6.String()]++
+		}
+	}
+	// whatever one family has left after the other ran out is taken from the allocator directly
+	for i := 0; i < 2*smTotal; i++ {
+		for _, f := range []string{"v4", "v6"} {
+			if ip := w.pool.alloc(fmt.Sprintf("drain-%s-%d", f, i), f); ip != "" {
+				got[ip]++
+			}
+		}
 	}
 	for a, n := range got {
-		if n > 1 || a == w.b.addr.String() {
+		if n > 1 || a == w.b.addr.String() || a == w.b.addr6.String() {
 			w.add("probe-double-assignment", site, "address %s handed to %d new sessions", a, n)
 		}
 	}
-	if len(got) != smTotal-1 {
-		w.add("probe-conservation", site, "new sessions obtained %d distinct addresses, %d should be free: %v", len(got), smTotal-1, got)
+	want := 2 * (smTotal - 1)
+	for _, a := range []net.IP{w.a.addr, w.a.addr6} {
+		if a == nil {
+			continue
+		}
+		if w.pool.exempt(a.String()) {
+			want-- // its release was failed by injection: it legitimately stays allocated
+			if got[a.String()] != 0 {
+				w.add("probe-double-assignment", site, "%s is still allocated (failed release) and was handed to a new session", a)
+			}
+		} else if got[a.String()] == 0 {
+			w.add("probe-address-not-obtainable", site, "no new session was given the victim's former address %s: %v", a, got)
+		}
 	}
-	if w.a.addr != nil && got[w.a.addr.String()] == 0 {
-		w.add("probe-address-not-obtainable", site, "no new session was given the victim's former address %s: %v", w.a.addr, got)
+	if len(got) != want {
+		w.add("probe-conservation", site, "new sessions obtained %d distinct addresses, %d should be free: %v", len(got), want, got)
 	}
 }
